@@ -345,7 +345,11 @@ RunOps(M, F, t, k, i) ==
 RunTerm(M, F, t, k) ==
   LET tm == P.tasks[t].segs[k].term IN
   CASE tm.k = "yield" ->
-         LET r == IF tm.reuse # 0 THEN [M |-> M, s |-> M.tk[t].ys[tm.reuse]]           \* the object yielded before, again
+         LET r == IF tm.reuse # 0
+                  THEN IF tm.s.g = "Lst"           \* the list yielded before, with new futures appended to it first
+                       THEN LET b == Build(M, t, k, tm.s, 0, StaticLeaves(t, k, tm.s))
+                            IN [M |-> b.M, s |-> Val("Lst", 0, M.tk[t].ys[tm.reuse].xs \o b.s.xs)]
+                       ELSE [M |-> M, s |-> M.tk[t].ys[tm.reuse]]                  \* the object yielded before, again
                   ELSE Build(M, t, k, tm.s, 0, StaticLeaves(t, k, tm.s))
              M1 == SegEndEv(r.M, t, k, 1, r.s)
              deps == ExtractOrder(r.s)
